@@ -2,7 +2,7 @@
 
 One machine = one model folder + one library folder (with nested
 sub-directories).  The harness rewrites/adds .mo files under a logical clock
-(os.utime, 10 s ticks, strictly later than everything before; the cache file
+(os.utime with ns precision, steps from 3 ms to 10 s, strictly later than everything before; the cache file
 is re-pinned to the next tick after every save, so file-system timestamp
 granularity never matters), toggles the compiler options that load_model
 compares, changes the pymoca version, and calls transfer_model in cache or
@@ -46,7 +46,7 @@ ASSUMPTIONS = [
     "the reference is api._compile_model on a copy of the sources in a folder without cache file: "
     "compilation itself (parser, flattening, generator, simplify) is trusted to be deterministic; "
     "only load_model/save_model/transfer_model's decision and round trip are under test",
-    "modification times are set explicitly (os.utime, logical clock, 10 s ticks): every edit is "
+    "modification times are set explicitly (os.utime, logical clock with steps between 3 ms and 10 s): every edit is "
     "strictly later than the cache file, as the statement requires; equal or earlier mtimes are "
     "outside the property",
     "a version change is made observable by the harness: while the check runs, api._compile_model "
@@ -352,9 +352,14 @@ class Sim:
     def close(self):
         shutil.rmtree(self.root, ignore_errors=True)
 
+    # "a later modification time" may be later by a fraction of a second: steps of the logical
+    # clock alternate between milliseconds and seconds (kept in integer nanoseconds)
+    STEPS_NS = (50_000_000, 10_000_000_000, 400_000_000, 3_000_000, 2_500_000_000, 900_000_000)
+
     def now(self):
         self.tick += 1
-        return BASE_EPOCH + TICK_S * self.tick
+        self.t_ns = getattr(self, "t_ns", BASE_EPOCH * 1_000_000_000) + self.STEPS_NS[self.tick % len(self.STEPS_NS)]
+        return self.t_ns
 
     def path(self, key):
         folder, rel, _ = FILES[key]
@@ -365,7 +370,7 @@ class Sim:
         p.parent.mkdir(parents=True, exist_ok=True)
         p.write_text(file_text(key, variant))
         t = self.now()
-        os.utime(p, (t, t))
+        os.utime(p, ns=(t, t))
         self.files[key] = variant
 
     def eligible_m(self):
@@ -547,7 +552,7 @@ class Sim:
         rewritten = self.cache_file.exists() and os.stat(self.cache_file).st_mtime_ns != self.pinned_ns
         if rewritten:
             t = self.now()
-            os.utime(self.cache_file, (t, t))
+            os.utime(self.cache_file, ns=(t, t))
             self.pinned_ns = os.stat(self.cache_file).st_mtime_ns
             self.cache = {"opts": self.merged(mode), "version": self.version, "files": dict(self.files)}
             self.since_save = []
